@@ -205,10 +205,17 @@ package mem
 //@   requires f.store != nil
 //@   range 1 over f.store.records visited V key k
 //@   range 1 invariant "shape" ref(names) == 0 || fresh(names)
+//@   range 1 ghost idx string->int k := len(names)
+//@   range 1 ghost src int->string len(names) := k
+//@   range 1 invariant "complete" forall(q, V, implies(isChildKey(q, f.path), 0 <= gw("idx", q) && gw("idx", q) < len(names) && names[gw("idx", q)] == childName(q, f.path)))
+//@   range 1 invariant "sound" forall(i, 0, len(names), in(gw("src", i), V) && isChildKey(gw("src", i), f.path) && names[i] == childName(gw("src", i), f.path) && gw("idx", gw("src", i)) == i)
 //@   range 1 invariant "nonempty-complete" forall(k, V, implies(isChildKey(k, f.path), len(names) > 0))
 //@   range 1 invariant "nonempty-sound" implies(len(names) > 0, exists(k, dom(f.store.records), isChildKey(k, f.path)))
 //@   ensures "notdir" implies(f.mode&hackpadfs.ModeDir == 0, names == nil && err == hackpadfs.ErrNotDir)
 //@   ensures "dir" implies(f.mode&hackpadfs.ModeDir != 0, err == nil)
+//@   ensures "each-child-listed" [C16 C03] implies(err == nil, forall(q, dom(f.store.records), implies(isChildKey(q, f.path), exists(i, 0, len(names), names[i] == childName(q, f.path)))))
+//@   ensures "only-children" [C16 C03] implies(err == nil, forall(i, 0, len(names), exists(q, dom(f.store.records), isChildKey(q, f.path) && names[i] == childName(q, f.path))))
+//@   ensures "distinct" [C16 C03] implies(err == nil, forall(i, 0, len(names), forall(j, 0, i, names[i] != names[j])))
 //@   ensures "nonempty" [C03 C01] implies(err == nil, iff(len(names) > 0, exists(k, dom(f.store.records), isChildKey(k, f.path))))
 //@   nopanic
 
